@@ -116,18 +116,18 @@ def boolify(g):
     if g[0] == 'ite':
         c, a, b = g[1], boolify(g[2]), boolify(g[3])
         if a == FALSE:
-            return simp(AND(NOT(c), b))
+            return AND(NOT(c), b)
         if b == FALSE:
-            return simp(AND(c, a))
+            return AND(c, a)
         if a == TRUE:
-            return simp(OR(c, b))
+            return OR(c, b)
         if b == TRUE:
-            return simp(OR(NOT(c), a))
+            return OR(NOT(c), a)
         return g
-    if g[0] == 'not':
-        return simp(NOT(boolify(g[1])))
-    if g[0] == 'bool':
-        return simp((AND if g[1] == 'and' else OR)(*[boolify(x) for x in g[2]]))
+    if g[0] == 'not' and g[1][0] in ('ite', 'bool', 'not'):
+        return NOT(boolify(g[1]))
+    if g[0] == 'bool' and any(x[0] in ('ite', 'bool', 'not') for x in g[2]):
+        return (AND if g[1] == 'and' else OR)(*[boolify(x) for x in g[2]])
     return g
 
 
